@@ -32,7 +32,8 @@ def CHACHA_RULES(kind):
         (r"c01_new_", dict(filter="c01_new_", props=["C01", "C02", "C11"], tier="quick", funcs=CH_BUF)),
         (r"c02_seek_", dict(filter="c02_seek_", props=["C02", "C11"], tier="quick", funcs=CH_BUF)),
         (r"c02_pos_", dict(filter="c02_pos_", props=["C02"], tier="quick", funcs=CH_BUF)),
-        (r"shapes_quick::c02_apply_", dict(filter="shapes_quick", props=["C01", "C02", "C11", "C16"], tier="quick", funcs=CH_BUF, bounded=SHAPE_BOUND, timeout=1500)),
+        (r"shapes_quick::c02_apply_(chacha20|ietf)_h(p0|m1|p63)_n(0|1|64|65|257|320)$", dict(filter="shapes_quick", props=["C01", "C02", "C11", "C16"], tier="quick", funcs=CH_BUF, bounded=SHAPE_BOUND, timeout=1500)),
+        (r"shapes_quick::c02_apply_", dict(filter="shapes_quick", props=["C01", "C02", "C11", "C16"], tier="quick", funcs=CH_BUF, bounded=SHAPE_BOUND, timeout=1500, tier_by_prop={"C16": "thorough"})),
         (r"shapes_thorough::c02_apply_", dict(filter="shapes_thorough", props=["C01", "C02", "C11"], tier="thorough", funcs=CH_BUF, bounded=SHAPE_BOUND, timeout=1800)),
     ]
     if kind == "generic":
@@ -45,8 +46,10 @@ def CHACHA_RULES(kind):
 
 TF_FUNCS = "threefish_cipher::{mix, inv_mix, read_u64v_le, write_u64v_le, Threefish{256,512,1024}::{with_tweak, new, encrypt_block, decrypt_block}}"
 TF_RULES = [
-    (r"c09_(mix_contract|key_schedule|le_io)", dict(filter="c09_", props=["C09", "C10", "C05"], tier="quick", funcs=TF_FUNCS)),
-    (r"c09_encrypt_wiring", dict(filter="c09_", props=["C09", "C05"], tier="quick", funcs=TF_FUNCS, timeout=2400)),
+    (r"c09_le_io", dict(filter="c09_", props=["C09", "C10", "C05", "C16"], tier="quick", funcs=TF_FUNCS)),
+    (r"c09_(mix_contract|key_schedule)", dict(filter="c09_", props=["C09", "C10", "C05"], tier="quick", funcs=TF_FUNCS)),
+    (r"tf256::c09_encrypt_wiring", dict(filter="c09_", props=["C09", "C05", "C16"], tier="quick", funcs=TF_FUNCS, timeout=2400)),
+    (r"c09_encrypt_wiring", dict(filter="c09_", props=["C09", "C05"], tier="quick", funcs=TF_FUNCS, timeout=2400, tier_by_prop={"C05": "thorough"})),
     (r"c10_decrypt_wiring", dict(filter="c10_", props=["C10"], tier="quick", funcs=TF_FUNCS, timeout=2400)),
     (r"c10_round_inverse_lemma", dict(filter="c10_", props=["C10"], tier="quick", funcs="spec-level: spec/threefish.rs round_core/inv_core", timeout=1800)),
 ]
@@ -72,7 +75,20 @@ def HASH_RULES():
             r.append((mod + r"c08_\w+_update_p", dict(filter=mod + "c08", props=["C08", "C17", "C16"], tier=tier, funcs=funcs, bounded=HASH_BOUND, timeout=2400,
                                                      tier_by_prop={"C16": "thorough"})))
             r.append((mod + r"c08_\w+_clone_p", dict(filter=mod + "c08", props=["C08"], tier=tier, funcs=funcs, bounded=HASH_BOUND, timeout=2400)))
-    return r
+    BF = "blake_hash::{round32, round64, diagonalize, undiagonalize, u32x4::put_block, u64x4::put_block, Compressor{256,512}::{put_block, finalize}}"
+    JF = "jh_x86_64::compressor::{ss, l, f8_impl, f8, Compressor::{new, input, finalize}}"
+    core = [
+        (r"blake_core::c04_lemma", dict(filter="blake_core::", props=["C04"], tier="quick", funcs="spec-level: spec/blake_core.rs", timeout=2400)),
+        (r"blake_core::\w+::c04_(round|diag)", dict(filter="blake_core::", props=["C04", "C03"], tier="quick", funcs=BF, timeout=1200)),
+        (r"blake_core::wiring::c04_finalize_", dict(filter="blake_core::", props=["C04", "C03", "C16"], tier="quick", funcs=BF, timeout=1200)),
+        (r"blake_core::wiring::c04_put_block256_(l0|l4|gen)", dict(filter="blake_core::", props=["C04", "C03", "C16"], tier="quick", funcs=BF, timeout=2400)),
+        (r"blake_core::wiring::c04_put_block512_(l0|l4|gen)", dict(filter="blake_core::", props=["C04", "C03", "C16"], tier="quick", funcs=BF, timeout=3000, tier_by_prop={"C16": "thorough"})),
+        (r"blake_core::wiring::c04_put_block", dict(filter="blake_core::", props=["C04", "C03"], tier="thorough", funcs=BF, timeout=3000)),
+        (r"jh_core::\w+::c06_ss_l_leaf", dict(filter="jh_core::", props=["C06", "C03"], tier="quick", funcs=JF, timeout=1200)),
+        (r"jh_core::wiring::c06_f8_wiring_(l4|gen)", dict(filter="jh_core::", props=["C06", "C03", "C16"], tier="quick", funcs=JF, timeout=3600, tier_by_prop={"C16": "thorough"})),
+        (r"jh_core::wiring::c06_f8_wiring_", dict(filter="jh_core::", props=["C06", "C03"], tier="thorough", funcs=JF, timeout=3600)),
+    ]
+    return core + r
 
 
 UNITS = {
@@ -80,18 +96,22 @@ UNITS = {
         template="kani/ppv", crate="ppv_h", zflags=["stubbing"], cargo_args=[], rustflags=RF_ZC,
         backend_note="x86-64 backends SSE2, SSSE3, SSE4.1(=AVX types), AVX2 instantiated by type",
         rules=[
-            (r"::c12_", dict(filter="c12_", props=["C12", "C03"], tier="quick", funcs=PPV_FUNCS_X86)),
-            (r"::c13_.*_bytes$", dict(filter="c13_", props=["C13", "C03", "C16"], tier="quick", funcs=PPV_FUNCS_X86)),
-            (r"::c13_", dict(filter="c13_", props=["C13", "C03"], tier="quick", funcs=PPV_FUNCS_X86)),
+            (r"::c12_(u32x4|u32x4x4|u64x4|u128x1|u128x2)_", dict(filter="c12_", props=["C12", "C03"], tier="quick", funcs=PPV_FUNCS_X86)),
+            (r"::c12_", dict(filter="c12_", props=["C12", "C03"], tier="quick", funcs=PPV_FUNCS_X86, tier_by_prop={"C03": "thorough"})),
+            (r"::c13_.*_bytes$", dict(filter="c13_", props=["C13", "C03", "C16"], tier="quick", funcs=PPV_FUNCS_X86, tier_by_prop={"C03": "thorough"})),
+            (r"::c13_(u32x4|u32x4x4|u64x4|u128x1|u128x2)_", dict(filter="c13_", props=["C13", "C03"], tier="quick", funcs=PPV_FUNCS_X86)),
+            (r"::c13_", dict(filter="c13_", props=["C13", "C03"], tier="quick", funcs=PPV_FUNCS_X86, tier_by_prop={"C03": "thorough"})),
         ],
     ),
     "ppv_generic": dict(
         template="kani/ppv", crate="ppv_h", zflags=["stubbing"], cargo_args=["--features", "no_simd"], rustflags=RF_ZC,
         backend_note="portable backend (feature no_simd)",
         rules=[
-            (r"::c12_", dict(filter="c12_", props=["C12", "C03"], tier="quick", funcs=PPV_FUNCS_GEN)),
-            (r"::c13_.*_bytes$", dict(filter="c13_", props=["C13", "C03", "C16"], tier="quick", funcs=PPV_FUNCS_GEN)),
-            (r"::c13_", dict(filter="c13_", props=["C13", "C03"], tier="quick", funcs=PPV_FUNCS_GEN)),
+            (r"::c12_(u32x4|u32x4x4|u64x4|u128x1|u128x2)_", dict(filter="c12_", props=["C12", "C03"], tier="quick", funcs=PPV_FUNCS_GEN)),
+            (r"::c12_", dict(filter="c12_", props=["C12", "C03"], tier="quick", funcs=PPV_FUNCS_GEN, tier_by_prop={"C03": "thorough"})),
+            (r"::c13_.*_bytes$", dict(filter="c13_", props=["C13", "C03", "C16"], tier="quick", funcs=PPV_FUNCS_GEN, tier_by_prop={"C03": "thorough"})),
+            (r"::c13_(u32x4|u32x4x4|u64x4|u128x1|u128x2)_", dict(filter="c13_", props=["C13", "C03"], tier="quick", funcs=PPV_FUNCS_GEN)),
+            (r"::c13_", dict(filter="c13_", props=["C13", "C03"], tier="quick", funcs=PPV_FUNCS_GEN, tier_by_prop={"C03": "thorough"})),
         ],
     ),
     "chacha_x86": dict(
@@ -119,6 +139,11 @@ UNITS = {
         backend_note="mode-of-operation layer (backend independent); " + MODE_ASSUME,
         rules=HASH_RULES(),
     ),
+    "hashes_generic": dict(
+        template="kani/hashes", crate="hashes_h", zflags=["stubbing"], cargo_args=["--features", "no_simd"], rustflags=RF_HOOK, native_replay=False,
+        backend_note="no_simd build: BLAKE and JH cores on the portable backend",
+        rules=[x for x in HASH_RULES() if "_core::" in x[0]],
+    ),
     "ppvnull": dict(
         template="kani/ppvnull", crate="ppvnull_h", zflags=[], cargo_args=[], rustflags=RF_ZC,
         backend_note="ppv-null emulation types",
@@ -136,7 +161,9 @@ PROP_UNITS = {
     "C15": ["chacha_x86", "chacha_generic"],
     "C02": ["chacha_x86", "chacha_generic"],
     "C11": ["chacha_x86", "chacha_generic"],
-    "C04": ["hashes"], "C05": ["hashes", "threefish"], "C06": ["hashes"], "C07": ["hashes"], "C08": ["hashes"], "C17": ["hashes"],
+    "C04": ["hashes", "hashes_generic"], "C05": ["hashes", "threefish"], "C06": ["hashes", "hashes_generic"],
+    "C03": ["ppv_x86", "ppv_generic", "chacha_x86", "chacha_generic", "hashes", "hashes_generic"],
+    "C16": ["ppv_x86", "ppv_generic", "chacha_x86", "hashes", "threefish"], "C07": ["hashes"], "C08": ["hashes"], "C17": ["hashes"],
     "C09": ["threefish", "threefish_no_unroll"],
     "C10": ["threefish", "threefish_no_unroll"],
 }
@@ -150,7 +177,7 @@ PROP_LEVEL = {
     "C12": "proof",
     "C13": "proof",
     "C19": "proof",
-    "C09": "proof", "C10": "proof", "C04": "proof", "C05": "proof", "C06": "proof", "C07": "proof", "C08": "proof", "C17": "proof",
+    "C03": "proof", "C16": "proof", "C09": "proof", "C10": "proof", "C04": "proof", "C05": "proof", "C06": "proof", "C07": "proof", "C08": "proof", "C17": "proof",
     "C01": "proof", "C14": "proof", "C15": "proof", "C02": "proof", "C11": "proof",
 }
 
